@@ -165,7 +165,8 @@ class Dnf(walkers.dag.DagWalker):
             big_conjunction = [lit for conj in conj_list for lit in conj]
             simp = self._simplifier.simplify(self.manager.And(big_conjunction))
             if simp.is_true():
-                return []
+                # one empty conjunction: the disjunction is true
+                return [[]]
             elif simp.is_false():
                 pass
             elif simp.is_and():
